@@ -129,6 +129,9 @@ type parseResult struct {
 	printPanic string
 	digestHash uint64
 	digest     string
+	// ptrs: addresses of the objects of the returned module (for the "two parses
+	// share no object" oracle); only kept when asked for.
+	ptrs map[uintptr]string
 	// bystander: the call never returned because another call's goroutine
 	// crashed the (simulated) process; there is nothing to compare.
 	bystander bool
@@ -137,6 +140,17 @@ type parseResult struct {
 func (p *parseResult) accepted() bool { return p.m != nil && p.err == nil && p.panicMsg == "" }
 
 var tmpDir string
+
+// keepPointers makes parseVia record the object addresses of accepted modules;
+// priorModules are the modules earlier activity of the run left behind.
+var (
+	keepPointers bool
+	priorPtrs    []map[uintptr]string
+	priorNames   []string
+	// priorModules keeps those modules alive: a collected module's addresses
+	// are reused for new objects.
+	priorModules []*ir.Module
+)
 
 // parseVia parses text through the given entry point.
 func parseVia(name, text, entry string, plan *ReaderPlan, uniq string) *parseResult {
@@ -222,6 +236,9 @@ func parseVia(name, text, entry string, plan *ReaderPlan, uniq string) *parseRes
 			res.textOK = true
 			res.digest = moduleDigest(res.m)
 			res.digestHash = hash64(res.digest)
+			if keepPointers {
+				res.ptrs = modulePointers(res.m)
+			}
 		}
 	}
 	return res
@@ -371,10 +388,19 @@ func doPrior(p Prior, idx int) {
 	protect(func() {
 		switch p.Kind {
 		case "parse":
-			asm.ParseString(p.Name, text)
+			if m, err := asm.ParseString(p.Name, text); err == nil && m != nil && len(priorPtrs) < 3 {
+				priorPtrs = append(priorPtrs, modulePointers(m))
+				priorNames = append(priorNames, p.Name)
+				priorModules = append(priorModules, m)
+			}
 		case "parse-print":
 			if m, err := asm.ParseString(p.Name, text); err == nil && m != nil {
 				_ = m.String()
+				if len(priorPtrs) < 3 {
+					priorPtrs = append(priorPtrs, modulePointers(m))
+					priorNames = append(priorNames, p.Name)
+					priorModules = append(priorModules, m)
+				}
 			}
 		case "same-print-twice":
 			if m, err := asm.ParseString(p.Name, text); err == nil && m != nil {
@@ -488,6 +514,9 @@ func c12Run(sc *C12Scenario) *c12Outcome {
 	sing0 := hash64(singletonDigest())
 	simrt.Load(sc.Tape.config())
 	simrt.SeamsOn(true, true)
+	priorPtrs, priorNames, priorModules = nil, nil, nil
+	keepPointers = true
+	defer func() { keepPointers = false; priorPtrs, priorNames, priorModules = nil, nil, nil }()
 	for i, p := range sc.Prior {
 		i, p := i, p
 		simCallSafe(func() { doPrior(p, i) })
@@ -580,6 +609,32 @@ func c12Run(sc *C12Scenario) *c12Outcome {
 	simrt.SeamsOn(false, false)
 	if hash64(singletonDigest()) != sing0 {
 		out.singletonChanged = true
+	}
+	// Two parses share no object (the documented package-level singletons
+	// excepted): neither with a module an earlier parse of this run returned nor
+	// with the module a concurrent parse returns.
+	for i, t := range sc.Tasks {
+		r := results[i]
+		if r == nil || r.ptrs == nil {
+			continue
+		}
+		for k, pp := range priorPtrs {
+			if sh := sharedObjects(r.ptrs, pp, 6); len(sh) > 0 {
+				out.class, out.sig = "objects-shared", "with an earlier parse"
+				out.detail = fmt.Sprintf("the module returned for %s (via %s) shares %d+ object(s) with the module an earlier parse of %s returned in this process (modules must not share mutable objects; the package-level singletons are excepted): %v", t.Target, t.Entry, len(sh), priorNames[k], sh)
+				return out
+			}
+		}
+		for j := 0; j < i; j++ {
+			if results[j] == nil || results[j].ptrs == nil {
+				continue
+			}
+			if sh := sharedObjects(r.ptrs, results[j].ptrs, 6); len(sh) > 0 {
+				out.class, out.sig = "objects-shared", "between concurrent parses"
+				out.detail = fmt.Sprintf("the modules returned by parse tasks %d (%s) and %d (%s) share object(s): %v", j, sc.Tasks[j].Target, i, t.Target, sh)
+				return out
+			}
+		}
 	}
 	for i, t := range sc.Tasks {
 		r := results[i]
